@@ -1,3 +1,6 @@
+(* SNAPSHOT (frozen copy, taken for the Reset-equivalence proof EngineResetProofs.v) of
+   proofs/EngineSafetySmall.v as of 2026-10-01 23:40; only the module name differs.  It can be
+   replaced by an import of EngineSafetySmall once that file is final. *)
 (* EngineSafetySmall.v -- safety of the small-table builder of RModel/Engine.v:
    setCodes, gen_small (GenerateForHeader / genForDists) and codeLenCodes.
 
